@@ -436,6 +436,7 @@ func (ix *PkgIndex) freshLocal(f *FuncInfo, e ast.Expr) bool {
 // GuardedBy checks a guarded-by table entry over the whole package.
 func (le *LockEngine) GuardedBy(r *Run, rule string, spec GuardSpec) int {
 	ix := le.ix
+	spec.Mutex = resolvePath(ix.Pkg, spec.Type, spec.Mutex)
 	fields := map[*types.Var]bool{}
 	for _, fn := range spec.Fields {
 		v := lookupField(ix.Pkg, spec.Type, fn)
